@@ -153,10 +153,8 @@ def runs(base, standin, rankings, scheme, one, n_univ, explore_max=4, seeds=(0, 
             return elements[i]
         st, p = run_once(base, standin, rankings, scheme, one, chooser=chooser)
         count += 1
-        if base == "KwikSortRandom" and st == "ok" and not trace:
-            # harness self-check (a crash, never a violation): the pivot hook must be the one the repository draws from
-            raise RuntimeError("pivot control ineffective: KwikSortRandom answered without drawing a pivot through "
-                               "corankco.algorithms.kwiksort.kwiksortrandom.choice")
+        # (no pivot drawn through the hook: the answer is judged all the same — e.g. a universe handled without a pivot,
+        # or a repository that draws its pivots elsewhere, in which case the exploration degrades to this single run)
         yield "pivots=%s" % [t[0] for t in trace], st, p
         for k in range(len(prefix), len(trace)):
             for alt in range(1, trace[k][1]):
@@ -195,6 +193,15 @@ CORNERS = [
     [[[0], [1], [2], [3]], [[0], [2], [3], [1]], [[0], [3], [1], [2]]],
     [[[1], [0], [2], [4], [3]], [[1], [2], [4], [0], [3]], [[1], [4], [0], [2], [3]]],
     [[[1], [2], [3]], [[2], [3], [1], [0]], [[3], [1], [2]]],
+    # Condorcet cycles oriented AGAINST the order in which the elements first appear (internal ids), alone, after an
+    # all-tied ranking, on 4 elements, and a 5-ranking profile on 4 elements whose majority graph is cyclic: an ILP that
+    # lost part of its transitivity constraints returns the cycle itself (empty leading bucket / elements lost)
+    [[[2], [1], [0]], [[1], [0], [2]], [[0], [2], [1]]],
+    [[[0, 1, 2]], [[0], [2], [1]], [[1], [0], [2]], [[2], [1], [0]]],
+    [[[0, 1, 2]], [[0], [1], [2]], [[1], [2], [0]], [[2], [0], [1]]],
+    [[[3], [2], [1], [0]], [[2], [1], [0], [3]], [[1], [0], [3], [2]], [[0], [3], [2], [1]]],
+    [[[3], [1], [2], [0]], [[2], [1], [3], [0]], [[2], [1], [0], [3]], [[1], [0], [3], [2]], [[3], [2], [0], [1]]],
+    [[[0, 2], [1, 3]], [[3], [0, 1, 2]], [[0], [1, 2, 3]], [[1], [0], [2, 3]], [[3], [1], [0, 2]]],
 ]
 
 
@@ -239,6 +246,22 @@ def sweep(tier, seed, schemes, per_dataset_schemes=3, sample_quick=600, sample_t
             yield {"rankings": named(d, kind), "scheme": schemes[(i * 5 + 1) % ns], "namekind": kind, "src": "n4m2"}
             i += 1
     rng = random.Random(seed * 104729 + 3)
+    # near ties: sparse / tied datasets under the schemes of domains.NEAR_TIES whose distinct scores are relatively
+    # close (a selection "== minimum" turned tolerant returns rankings that do not have the reported score)
+    for i in range(120 if tier == "quick" else 1200):
+        if i % 2:
+            d = D.random_dataset(rng, 5, 4, complete=(i % 3 == 2), n_min=3)
+        else:
+            # conflicting permutations of 6-7 elements, one of them truncated: local searches started from different
+            # rankings end in different local optima, whose scores share the large constant part
+            n_, d = 6 + (i // 2) % 2, []
+            for k in range(5):
+                p_ = list(range(n_))
+                rng.shuffle(p_)
+                d.append([[x] for x in (p_[:n_ - 2] if k == 1 else p_)])
+        kind = kinds[i % len(kinds)]
+        yield {"rankings": named(d, kind), "scheme": [D.OFFSET_NEAR_TIE, D.BIG_NEAR_TIE][(i % 3) // 2], "namekind": kind,
+               "src": "near-tie"}
     count = sample_quick if tier == "quick" else sample_thorough
     for i in range(count):
         d = D.random_dataset(rng, 5 if tier == "quick" else 6, 4 if tier == "quick" else 5,
